@@ -20,7 +20,7 @@ def extra(ctx, res):
             nf = b
     fs = []
     if nf is None:
-        fs.append(Finding("C09.G1", "NamedFieldsInfo::parse", "not found", ""))
+        fs.append(Finding("C09.G1", "NamedFieldsInfo::parse", "not found (undecided)", "", undecided=True))
     else:
         v = View(nf)
         sorts = [(bb, c) for bb, c in v.calls() if c.fn is not None and c.name and c.name.startswith("sort")]
